@@ -3,7 +3,8 @@
 From Coq Require Import Reals List.
 From Coquelicot Require Import Coquelicot.
 From GS Require Import ExprR LinAlg Meth MethR Prog Chain Wrap Spec GenR2 GenR3 GenSE2 GenSE3 GenEdges
-  C10_SE3 C10_SE3_boxplus C10_SE2 C10_Rn C09_SE3 C09_SE2 C11_main C01_SE3 C01_Rn C01_SE2 C02_model C07_errors C07_equiv C07_traj C07_all.
+  C10_SE3 C10_SE3_boxplus C10_SE2 C10_Rn C09_SE3 C09_SE2 C11_main C01_SE3 C01_Rn C01_SE2 C02_model C07_errors C07_equiv C07_traj
+  GraphModel GNSpec C07_jac2 C07_lmk C07_basis C07_traj2 C07_all.
 Import ListNotations.
 Open Scope R_scope.
 
@@ -42,6 +43,38 @@ Theorem C07 :
   (forall T p l z off u, length T = 7%nat -> length p = 7%nat -> length l = 3%nat -> length z = 3%nat ->
      length off = 7%nat -> length u = 6%nat -> unitq T -> unitq p -> unitq off -> forall i,
      nth i (matvec (nth 0 (jac_lmk3 (comp3 T p) (act3 T l) z off) []) u) 0 = nth i (matvec (nth 0 (jac_lmk3 p l z off) []) u) 0) /\
+  (* SE(2): the Jacobian matrices themselves coincide, no side condition *)
+  (forall T p1 p2 z, length T = 3%nat -> length p1 = 3%nat -> length p2 = 3%nat -> length z = 3%nat ->
+     jac_odo2 (comp2 T p1) (comp2 T p2) z = jac_odo2 p1 p2 z) /\
+  (forall T p l z off, length T = 3%nat -> length p = 3%nat -> length l = 2%nat -> length z = 2%nat -> length off = 3%nat ->
+     nth 0 (jac_lmk2 (comp2 T p) (act2 T l) z off) [] = nth 0 (jac_lmk2 p l z off) []) /\
+  (* ---- landmark slots: the transformed landmark moves by d' = R_T d, its Jacobian is J'_l = J_l R_T^-1 ---- *)
+  (forall T p l z off u, length T = 7%nat -> length p = 7%nat -> length l = 3%nat -> length z = 3%nat ->
+     length off = 7%nat -> length u = 3%nat -> unitq T -> unitq p -> unitq off -> forall i,
+     nth i (matvec (nth 1 (jac_lmk3 (comp3 T p) (act3 T l) z off) []) (rot3 T u)) 0 = nth i (matvec (nth 1 (jac_lmk3 p l z off) []) u) 0 /\
+     nth i (matvec (nth 1 (jac_lmk3 (comp3 T p) (act3 T l) z off) []) u) 0 = nth i (matvec (nth 1 (jac_lmk3 p l z off) []) (rot3 (evl T SE3_inv) u)) 0) /\
+  (forall T p l z off u, length T = 3%nat -> length p = 3%nat -> length l = 2%nat -> length z = 2%nat ->
+     length off = 3%nat -> length u = 2%nat -> forall i,
+     nth i (matvec (nth 1 (jac_lmk2 (comp2 T p) (act2 T l) z off) []) (rot2 T u)) 0 = nth i (matvec (nth 1 (jac_lmk2 p l z off) []) u) 0 /\
+     nth i (matvec (nth 1 (jac_lmk2 (comp2 T p) (act2 T l) z off) []) u) 0 = nth i (matvec (nth 1 (jac_lmk2 p l z off) []) (rot2 (evl T SE2_inv) u)) 0) /\
+  (forall T u, length T = 7%nat -> length u = 3%nat -> unitq T -> rot3 T (rot3 (evl T SE3_inv) u) = u /\ rot3 (evl T SE3_inv) (rot3 T u) = u) /\
+  (forall T u, length T = 3%nat -> length u = 2%nat -> rot2 T (rot2 (evl T SE2_inv) u) = u /\ rot2 (evl T SE2_inv) (rot2 T u) = u) /\
+  (* ---- graph level (lib/GNSpec.v): a per-vertex change of tangent basis  J' = J Q,  Q_k P_k = I  maps every solution d of
+          the normal equations to the solution P d of the re-based system, and leaves chi^2 alone ---- *)
+  (forall vs es Q P d, wf_graph vs es -> inverse_blocks vs Q P ->
+     solves (glen vs) (spec_H vs es) (spec_b vs es) d ->
+     solves (glen vs) (spec_H vs (map (tb_edge vs Q) es)) (spec_b vs (map (tb_edge vs Q) es)) (bmul vs P d)) /\
+  (forall vs Q es, spec_chi2 (map (tb_edge vs Q) es) = spec_chi2 es) /\
+  (* ---- trajectory when increments are transformed too (landmarks): any solver returning A solution, the
+          transformed system having at most one ---- *)
+  (forall (P : Type) (tr : nat -> P -> P) (dmap : nat -> list R -> list R) (good : list P -> Prop)
+          (sol : list P -> (nat -> list R) -> Prop) (solve : list P -> nat -> list R) (bp : nat -> P -> list R -> P),
+     (forall ps, sol ps (solve ps)) ->
+     (forall ps dx, good ps -> sol ps dx -> sol (trs P tr ps) (fun k => dmap k (dx k))) ->
+     (forall ps d1 d2, good ps -> sol (trs P tr ps) d1 -> sol (trs P tr ps) d2 -> forall k, (k < length ps)%nat -> d1 k = d2 k) ->
+     (forall k p d, bp k (tr k p) (dmap k d) = tr k (bp k p d)) ->
+     (forall ps, good ps -> good (step2 P solve bp ps)) ->
+     forall n ps, good ps -> Nat.iter n (step2 P solve bp) (trs P tr ps) = trs P tr (Nat.iter n (step2 P solve bp) ps)) /\
   (* ---- hence the whole trajectory: for ANY solver (a function of the linearised system) ---- *)
   (forall (P L : Type) (tr : P -> P) (good : list P -> Prop) (linearize : list P -> L) (solve : L -> nat -> list R) (bp : P -> list R -> P),
      (forall ps, good ps -> linearize (map tr ps) = linearize ps) ->
